@@ -155,6 +155,7 @@ type fnGen struct {
 	errGlobals      []string
 	wantRetry       func(string) bool
 	privateFV       map[*ssa.FreeVar]bool
+	mapOrderSeen    map[*ssa.Range]bool
 }
 
 type guardProv struct {
